@@ -1,2 +1,309 @@
 //! verification hooks for engine `ty` (cfg(xray_verif) only)
+//!
+//! Types are built from / printed to a bracket-free prefix notation (one token per node):
+//!   b i f s u | g:NAME | t:N .. | n:NAME:N .. | c:K:NAME:N .. | k:N .. ret | x:G:N:R .. ret
+//! Natives and compounds are looked up by name in a compilation scope (standard library + a prelude
+//! of struct/union definitions fed by the harness), so the specs are the real ones.
 #![allow(unreachable_pub, dead_code, unused_imports)]
+
+use crate::compilation_scope::CompilationItem;
+use crate::root_compilation_scope::RootCompilationScope;
+use crate::xtype::{
+    common_type, Bind, CompoundKind, XCallableSpec, XFuncParamSpec, XFuncSpec, XType, X_BOOL,
+    X_FLOAT, X_INT, X_STRING, X_UNKNOWN,
+};
+use crate::Identifier;
+use std::collections::HashSet;
+use std::iter::FromIterator;
+use std::sync::Arc;
+
+fn intern<W, R, T>(scope: &RootCompilationScope<W, R, T>, name: &str) -> Identifier {
+    scope.interner.borrow_mut().get_or_intern(name)
+}
+
+fn resolve<W, R, T>(scope: &RootCompilationScope<W, R, T>, id: Identifier) -> String {
+    scope
+        .interner
+        .borrow()
+        .resolve(id)
+        .unwrap_or("?")
+        .to_string()
+}
+
+fn parse_n<'a, W, R, T>(
+    scope: &RootCompilationScope<W, R, T>,
+    n: usize,
+    toks: &mut std::slice::Iter<'a, &'a str>,
+) -> Result<Vec<Arc<XType>>, String> {
+    (0..n).map(|_| parse_type(scope, toks)).collect()
+}
+
+/// one type in prefix notation
+pub fn parse_type<'a, W, R, T>(
+    scope: &RootCompilationScope<W, R, T>,
+    toks: &mut std::slice::Iter<'a, &'a str>,
+) -> Result<Arc<XType>, String> {
+    let tok = toks.next().ok_or("missing token")?;
+    let parts: Vec<&str> = tok.split(':').collect();
+    let num = |s: &str| s.parse::<usize>().map_err(|e| e.to_string());
+    match parts.as_slice() {
+        ["b"] => Ok(X_BOOL.clone()),
+        ["i"] => Ok(X_INT.clone()),
+        ["f"] => Ok(X_FLOAT.clone()),
+        ["s"] => Ok(X_STRING.clone()),
+        ["u"] => Ok(X_UNKNOWN.clone()),
+        ["g", name] => Ok(Arc::new(XType::XGeneric(intern(scope, name)))),
+        ["t", n] => Ok(Arc::new(XType::Tuple(parse_n(scope, num(n)?, toks)?))),
+        ["n", name, n] => {
+            let args = parse_n(scope, num(n)?, toks)?;
+            match scope.scope.get_item(&intern(scope, name)) {
+                Some(CompilationItem::Type(t)) => match t.as_ref() {
+                    XType::XNative(nt, ..) => Ok(Arc::new(XType::XNative(nt.clone(), args))),
+                    _ => Err(format!("{name} is not a native type")),
+                },
+                _ => Err(format!("{name} not found")),
+            }
+        }
+        ["c", k, name, n] => {
+            let args = parse_n(scope, num(n)?, toks)?;
+            match scope.scope.get_item(&intern(scope, name)) {
+                Some(CompilationItem::Type(t)) => match t.as_ref() {
+                    XType::Compound(kind, spec, ..) => {
+                        let want = if *k == "U" {
+                            CompoundKind::Union
+                        } else {
+                            CompoundKind::Struct
+                        };
+                        if *kind != want || args.len() != spec.generic_names.len() {
+                            return Err(format!("{name}: kind or generic count mismatch"));
+                        }
+                        let bind =
+                            Bind::from_iter(spec.generic_names.iter().cloned().zip(args));
+                        Ok(Arc::new(XType::Compound(*kind, spec.clone(), bind)))
+                    }
+                    _ => Err(format!("{name} is not a compound type")),
+                },
+                _ => Err(format!("{name} not found")),
+            }
+        }
+        ["k", n] => {
+            let param_types = parse_n(scope, num(n)?, toks)?;
+            let return_type = parse_type(scope, toks)?;
+            Ok(Arc::new(XType::XCallable(XCallableSpec {
+                param_types,
+                return_type,
+            })))
+        }
+        ["x", g, n, r] => {
+            let ps = parse_n(scope, num(n)?, toks)?;
+            let ret = parse_type(scope, toks)?;
+            let nreq = num(r)?;
+            Ok(Arc::new(XType::XFunc(XFuncSpec {
+                generic_params: if *g == "-" {
+                    None
+                } else {
+                    Some(g.split(',').map(|n| intern(scope, n)).collect())
+                },
+                params: ps
+                    .into_iter()
+                    .enumerate()
+                    .map(|(i, t)| XFuncParamSpec {
+                        type_: t,
+                        required: i < nreq,
+                    })
+                    .collect(),
+                ret,
+                short_circuit_overloads: false,
+            })))
+        }
+        _ => Err(format!("bad token {tok}")),
+    }
+}
+
+pub fn parse_types<W, R, T>(
+    scope: &RootCompilationScope<W, R, T>,
+    toks: &[&str],
+) -> Result<Vec<Arc<XType>>, String> {
+    let mut it = toks.iter();
+    let mut out = Vec::new();
+    while it.len() > 0 {
+        out.push(parse_type(scope, &mut it)?);
+    }
+    Ok(out)
+}
+
+pub fn show_type<W, R, T>(scope: &RootCompilationScope<W, R, T>, t: &XType) -> String {
+    let many = |head: String, ts: Vec<String>| {
+        let mut v = vec![head];
+        v.extend(ts);
+        v.join(" ")
+    };
+    match t {
+        XType::Bool => "b".to_string(),
+        XType::Int => "i".to_string(),
+        XType::Float => "f".to_string(),
+        XType::String => "s".to_string(),
+        XType::XUnknown => "u".to_string(),
+        XType::XGeneric(id) => format!("g:{}", resolve(scope, *id)),
+        XType::Tuple(ts) => many(
+            format!("t:{}", ts.len()),
+            ts.iter().map(|t| show_type(scope, t)).collect(),
+        ),
+        XType::XNative(nt, ts) => many(
+            format!("n:{}:{}", nt.name(), ts.len()),
+            ts.iter().map(|t| show_type(scope, t)).collect(),
+        ),
+        XType::Compound(kind, spec, bind) => many(
+            format!(
+                "c:{}:{}:{}",
+                if *kind == CompoundKind::Union { "U" } else { "S" },
+                resolve(scope, spec.name),
+                spec.generic_names.len()
+            ),
+            spec.generic_names
+                .iter()
+                .map(|n| match bind.get(n) {
+                    Some(t) => show_type(scope, t),
+                    // a generic name without an entry: not representable in the model (reported as is)
+                    None => format!("m:{}", resolve(scope, *n)),
+                })
+                .collect(),
+        ),
+        XType::XCallable(spec) => many(
+            format!("k:{}", spec.param_types.len()),
+            spec.param_types
+                .iter()
+                .chain(std::iter::once(&spec.return_type))
+                .map(|t| show_type(scope, t))
+                .collect(),
+        ),
+        XType::XFunc(spec) => {
+            let g = match &spec.generic_params {
+                None => "-".to_string(),
+                Some(gs) => gs
+                    .iter()
+                    .map(|g| resolve(scope, *g))
+                    .collect::<Vec<_>>()
+                    .join(","),
+            };
+            let nreq = spec.params.iter().take_while(|p| p.required).count();
+            let monotone = spec.params.iter().skip(nreq).all(|p| !p.required);
+            many(
+                format!(
+                    "x:{}:{}:{}{}",
+                    g,
+                    spec.params.len(),
+                    nreq,
+                    if monotone { "" } else { "!" }
+                ),
+                spec.params
+                    .iter()
+                    .map(|p| &p.type_)
+                    .chain(std::iter::once(&spec.ret))
+                    .map(|t| show_type(scope, t))
+                    .collect(),
+            )
+        }
+        XType::XTail(_) => "TAIL".to_string(),
+        XType::Auto => "AUTO".to_string(),
+    }
+}
+
+fn generic_names_of(t: &XType, out: &mut HashSet<Identifier>) {
+    match t {
+        XType::XGeneric(id) => {
+            out.insert(*id);
+        }
+        XType::Tuple(ts) | XType::XNative(_, ts) | XType::XTail(ts) => {
+            ts.iter().for_each(|t| generic_names_of(t, out))
+        }
+        XType::Compound(_, spec, bind) => spec.generic_names.iter().for_each(|n| {
+            if let Some(t) = bind.get(n) {
+                generic_names_of(t, out)
+            }
+        }),
+        XType::XCallable(spec) => {
+            spec.param_types.iter().for_each(|t| generic_names_of(t, out));
+            generic_names_of(&spec.return_type, out)
+        }
+        XType::XFunc(spec) => {
+            spec.params.iter().for_each(|p| generic_names_of(&p.type_, out));
+            generic_names_of(&spec.ret, out)
+        }
+        _ => {}
+    }
+}
+
+/// a binding, entries sorted by generic name; `keys_from` are the types whose generic names can be keys
+pub fn show_bind<W, R, T>(
+    scope: &RootCompilationScope<W, R, T>,
+    bind: &Option<Bind>,
+    keys_from: &[&XType],
+) -> String {
+    match bind {
+        None => "none".to_string(),
+        Some(b) => {
+            let mut ids = HashSet::new();
+            keys_from.iter().for_each(|t| generic_names_of(t, &mut ids));
+            let mut entries: Vec<(String, String)> = ids
+                .into_iter()
+                .filter_map(|id| b.get(&id).map(|t| (resolve(scope, id), show_type(scope, t))))
+                .collect();
+            entries.sort();
+            let found = entries.len();
+            let body = entries
+                .into_iter()
+                .map(|(k, v)| format!("{k}={v}"))
+                .collect::<Vec<_>>()
+                .join(" | ");
+            // an entry under a key that is no generic name of the required type would be missed above;
+            // emptiness is cross-checked so that this cannot go unnoticed
+            if (found == 0) != b.is_empty() {
+                return format!("some {{{body}}} !hidden-keys");
+            }
+            format!("some {{{body}}}")
+        }
+    }
+}
+
+/// evaluate one operation of the engine on types given in prefix notation
+pub fn ty_op<W, R, T>(scope: &RootCompilationScope<W, R, T>, f: &str, toks: &[&str]) -> String {
+    let types = match parse_types(scope, toks) {
+        Ok(t) => t,
+        Err(e) => return format!("bad-type {e}"),
+    };
+    match (f, types.as_slice()) {
+        ("bind", [r, s]) => show_bind(scope, &r.bind_in_assignment(s), &[r.as_ref()]),
+        ("common", [a, b]) => match common_type([Ok(a.clone()), Ok(b.clone())]) {
+            Ok(c) => format!("some {}", show_type(scope, &c)),
+            Err(_) => "none".to_string(),
+        },
+        ("commonall", ts) => match common_type(ts.iter().cloned().map(Ok)) {
+            Ok(c) => format!("some {}", show_type(scope, &c)),
+            Err(_) => "none".to_string(),
+        },
+        ("eq", [a, b]) => (a == b).to_string(),
+        ("isunk", [a]) => a.is_unknown().to_string(),
+        ("specbind", [func, args @ ..]) => match func.as_ref() {
+            XType::XFunc(spec) => {
+                let keys: Vec<&XType> = spec.params.iter().map(|p| p.type_.as_ref()).collect();
+                show_bind(scope, &spec.bind(args), &keys)
+            }
+            _ => "bad-op".to_string(),
+        },
+        ("resolve", [t, keys_and_vals @ ..]) => {
+            // resolve <type> then pairs (g:NAME, type)
+            let mut pairs = Vec::new();
+            for kv in keys_and_vals.chunks(2) {
+                if let [k, v] = kv {
+                    if let XType::XGeneric(id) = k.as_ref() {
+                        pairs.push((*id, v.clone()));
+                    }
+                }
+            }
+            let bind = Bind::from_iter(pairs);
+            show_type(scope, &t.resolve_bind(&bind, None))
+        }
+        _ => "bad-op".to_string(),
+    }
+}
